@@ -96,7 +96,34 @@ func HostileConstants() [][]byte {
 
 // GenHostile draws a hostile byte string and a class label.
 func GenHostile(t *rapid.T) ([]byte, string) {
-	kind := rapid.IntRange(0, 14).Draw(t, "hostileKind")
+	kind := rapid.IntRange(0, 15).Draw(t, "hostileKind")
+	if kind == 15 {
+		// not hostile by its form: a well-formed query whose name is as long as a name can be and consists of octets
+		// that are awkward to print (every path that renders or logs the name sees its longest text form)
+		oc := rapid.SampledFrom([]byte{0xFF, 0x00, '.', '\\', 0x7F, ' ', 'z'}).Draw(t, "octet")
+		var name Name
+		for left := rapid.IntRange(180, 254).Draw(t, "nameOctets"); left > 1; {
+			l := left - 1
+			if l > 63 {
+				l = 63
+			}
+			if !rapid.Bool().Draw(t, "maxLabel") {
+				l = rapid.IntRange(1, l).Draw(t, "labelLen")
+			}
+			lb := make([]byte, l)
+			for i := range lb {
+				lb[i] = oc
+				if rapid.IntRange(0, 15).Draw(t, "other") == 0 {
+					lb[i] = rapid.Byte().Draw(t, "v")
+				}
+			}
+			name = append(name, lb)
+			left -= l + 1
+		}
+		m := &Msg{ID: rapid.Uint16().Draw(t, "id"), Bits: BitRD, Q: []Question{{Name: name, Type: 1, Class: 1}}}
+		w, _ := Encode(m, EncOpts{})
+		return w, "valid-extreme-name"
+	}
 	if kind == 0 {
 		return rapid.SliceOfN(rapid.Byte(), 0, 600).Draw(t, "random"), "random"
 	}
